@@ -24,10 +24,85 @@ func vKindSet(tier int) []string {
 	return vspec.Kinds
 }
 
-// vMatchBoth runs the implementation on the item built in the given attribute order.
-func vMatch(expr string, item map[string]vspec.Val, order []string, vals map[string]vspec.Val, valOrder []string, aliases map[string]string) (bool, error, map[string]*types.Item) {
+var vKeepWords = map[string]bool{"AND": true, "OR": true, "NOT": true, "BETWEEN": true, "IN": true, "SET": true, "REMOVE": true, "ADD": true, "DELETE": true,
+	"ATTRIBUTE_EXISTS": true, "ATTRIBUTE_NOT_EXISTS": true, "ATTRIBUTE_TYPE": true, "BEGINS_WITH": true, "CONTAINS": true, "SIZE": true,
+	"IF_NOT_EXISTS": true, "LIST_APPEND": true}
+
+func vIsNameByte(c byte) bool {
+	return c >= 'a' && c <= 'z' || c >= 'A' && c <= 'Z' || c >= '0' && c <= '9' || c == '_' || c == '#' || c == ':'
+}
+
+func vUpperASCII(s string) string {
+	b := []byte(s)
+	for i, c := range b {
+		if c >= 'a' && c <= 'z' {
+			b[i] = c - 32
+		}
+	}
+	return string(b)
+}
+
+func vSwapCase(s string) string {
+	b := []byte(s)
+	for i, c := range b {
+		if c >= 'a' && c <= 'z' {
+			b[i] = c - 32
+		} else if c >= 'A' && c <= 'Z' {
+			b[i] = c + 32
+		}
+	}
+	return string(b)
+}
+
+// vFlipNames returns the expression text with the letter case of every bare attribute name swapped (keywords,
+// function names, placeholders and numbers stay): another expression that an interpreter must keep apart from
+// the original, however it remembers what it has parsed before.
+func vFlipNames(text string) string {
+	out := ""
+	for i := 0; i < len(text); {
+		if !vIsNameByte(text[i]) {
+			out += text[i : i+1]
+			i++
+			continue
+		}
+		j := i
+		for j < len(text) && vIsNameByte(text[j]) {
+			j++
+		}
+		w := text[i:j]
+		if w[0] == '#' || w[0] == ':' || w[0] >= '0' && w[0] <= '9' || vKeepWords[vUpperASCII(w)] {
+			out += w
+		} else {
+			out += vSwapCase(w)
+		}
+		i = j
+	}
+	return out
+}
+
+// vPrimeCondition makes the interpreter evaluate, before the evaluation that is checked, (1) the text with the
+// case of its attribute names swapped and its #names bound to the swapped attribute names and (2) the very
+// text on another item and other values. The outcomes are ignored: what is checked afterwards must not depend
+// on them (no state carried from one evaluation to the next can change a verdict).
+func vPrimeCondition(li *Language, expr string, vals map[string]vspec.Val, valOrder []string, aliases map[string]string) {
+	flipped := map[string]string{}
+	for k, v := range aliases {
+		flipped[k] = vSwapCase(v)
+	}
+	other := map[string]vspec.Val{"a": {Kind: "S", S: "prime"}, "A": {Kind: "N", N: 1}}
+	li.Match(MatchInput{TableName: "t", Expression: vFlipNames(expr), ExpressionType: ExpressionTypeFilter,
+		Item: vspec.ToItems(other, []string{"a", "A"}), Attributes: vspec.ToItems(vals, valOrder), Aliases: flipped})
+	otherVals := map[string]vspec.Val{}
+	for k := range vals {
+		otherVals[k] = vspec.Val{Kind: "S", S: "prime"}
+	}
+	li.Match(MatchInput{TableName: "t", Expression: expr, ExpressionType: ExpressionTypeFilter,
+		Item: vspec.ToItems(other, []string{"a", "A"}), Attributes: vspec.ToItems(otherVals, valOrder), Aliases: aliases})
+}
+
+// vMatch runs the implementation on the item built in the given attribute order.
+func vMatch(li *Language, expr string, item map[string]vspec.Val, order []string, vals map[string]vspec.Val, valOrder []string, aliases map[string]string) (bool, error, map[string]*types.Item) {
 	it := vspec.ToItems(item, order)
-	li := &Language{}
 	ok, err := li.Match(MatchInput{TableName: "t", Expression: expr, ExpressionType: ExpressionTypeFilter,
 		Item: it, Attributes: vspec.ToItems(vals, valOrder), Aliases: aliases})
 	return ok, err, it
@@ -50,7 +125,11 @@ func vCheckCondition(expr string, item map[string]vspec.Val, order []string, val
 	}
 	env := &vspec.Env{Item: item, Values: vals, Aliases: aliases}
 	want := env.Eval(ast)
-	got, err, it := vMatch(expr, item, order, vals, valOrder, aliases)
+	li := &Language{}
+	if nd.Param("prime", 1) == 1 {
+		vPrimeCondition(li, expr, vals, valOrder, aliases)
+	}
+	got, err, it := vMatch(li, expr, item, order, vals, valOrder, aliases)
 	if want != vspec.Unspec {
 		nd.Reach("specified")
 		nd.Assert(err == nil, id+"-wellformed-evaluates")
@@ -63,7 +142,7 @@ func vCheckCondition(expr string, item map[string]vspec.Val, order []string, val
 	// evaluation never modifies the item
 	nd.Assert(reflect.DeepEqual(it, vspec.ToItems(item, order)), id+"-item-not-modified")
 	// and does not depend on attribute order
-	got2, err2, _ := vMatch(expr, item, vReverse(order), vals, vReverse(valOrder), aliases)
+	got2, err2, _ := vMatch(li, expr, item, vReverse(order), vals, vReverse(valOrder), aliases)
 	nd.Assert((err == nil) == (err2 == nil) && got == got2, id+"-attribute-order-independent")
 }
 
